@@ -142,7 +142,10 @@ impl<'a> Analyzer<'a> {
                 let child_info = self.visit(child)?;
                 min_size = child_info.min_size.saturating_mul(lo);
                 const_size = child_info.const_size && lo == hi;
-                hard = child_info.hard;
+                // The regex crate drops an expression that is repeated zero times together with
+                // its capture groups, which would shift the numbers of all later groups.
+                hard = child_info.hard
+                    || (hi == 0 && child_info.end_group > child_info.start_group);
                 children.push(child_info);
             }
             Expr::Delegate { size, .. } => {
